@@ -8,6 +8,8 @@ Decided:
   E1  purity: the function and its callees read no static/global state other than the runtime debug level, and call
       only pure library functions — together with B1 the result depends on the arguments alone
 Not decided: antisymmetry and the ordering of well-formed versions (values)."""
+import re
+
 from .. import facts, expr as X
 from ..facts import walk
 from ..report import Check
@@ -48,6 +50,11 @@ def run(tier="quick"):
     for o in cp.obls:
         if o.kind == "progress":
             nloops += 1
+            if not o.ok and any((X.callee_name(c_) or "") in f.unit.functions for c_ in X.calls_in(o.node)):
+                # the cursor is advanced by a helper of the same file: whether it advances is a question about the helper's
+                # result that the loop-progress rule does not decide
+                chk.note("P1: progress of the loop at %s goes through a helper call; not decided" % f.loc(o.node))
+                continue
             chk.ob("P1", f.name, "progress:loop@%s" % ("outer" if o.node.get("l") == min(x.node.get("l") for x in cp.obls if x.kind == "progress") else "inner%d" % nloops),
                    o.ok, loc=f.loc(o.node), detail="%s: %s" % (f.name, o.detail), proof="a cursor strictly advances on every path through the body")
         if o.kind == "unterminated" and not o.ok:
@@ -59,6 +66,11 @@ def run(tier="quick"):
     for g in fns:
         for x in walk(g.body):
             if x.get("k") == "ref" and x.get("rk") in ("global", "slocal") and x.get("n") not in ALLOWED_GLOBALS:
+                # read-only data (a const table of words and ranks) is not state
+                gt = (x.get("tc") or "") + " " + (x.get("t") or "")
+                decl_t = " ".join((gd.get("tc") or "") + " " + (gd.get("t") or "") for gd in g.unit.all_globals if gd.get("n") == x.get("n"))
+                if re.search(r"\bconst\b", gt + " " + decl_t):
+                    continue
                 bad_g.append((g, x))
             if x.get("k") == "call":
                 cn = X.callee_name(x)
